@@ -42,7 +42,12 @@ SortRouters(R) == IF R = {} THEN <<>>
 \* a three-port router with a two-port router behind it; plus the reversed bind order of the line
 Canon4 == { << <<1, 2>>, <<2, 3>>, <<3, 4>> >>, << <<1, 2>>, <<1, 3>>, <<1, 4>> >>, << <<1, 2, 3>>, <<3, 4>> >>,
             << <<4, 3>>, <<3, 2>>, <<2, 1>> >>, << <<2, 4>>, <<3, 2, 1>> >> }
-RouterSeqs(N) == IF N = 4 /\ Shapes = "canon" THEN Canon4 ELSE {SortRouters(R) : R \in TreeSets(N)}
+\* five networks: line, two three-port routers, a four-port router with a two-port router behind it, a star of a
+\* three-port and two two-port routers
+Canon5 == { << <<1, 2>>, <<2, 3>>, <<3, 4>>, <<4, 5>> >>, << <<1, 2, 3>>, <<3, 4, 5>> >>, << <<1, 2, 3, 4>>, <<4, 5>> >>,
+            << <<2, 1>>, <<5, 3, 2>>, <<2, 4>> >> }
+RouterSeqs(N) == IF N = 4 /\ Shapes = "canon" THEN Canon4 ELSE IF N = 5 /\ Shapes = "canon" THEN Canon5
+                 ELSE {SortRouters(R) : R \in TreeSets(N)}
 
 K == <<TRUE>>
 U == <<FALSE>>
